@@ -205,3 +205,7 @@ Proof.
     apply nth_In. rewrite combine_length, L. cbn. lia. }
   repeat split; try lia; unfold weight_at; apply nth_In; lia.
 Qed.
+
+(** the occupancy theorems apply to the example world *)
+Example ex_occupancy : Rdm_average_occupancy_i 2 0 exH exD = Done (trace_rho_op exfock exH exD (op_n 0)).
+Proof. apply (occupancy_is_trace exfock exH exD ex_fock_nodup ex_blocks_wf ex_blocks_in_fock 2 0). lia. Qed.
